@@ -1861,6 +1861,23 @@ def m_int(interp, v=0, base=None):
         c.assume(core.implies(core.And(r == 0, q <= -lim), res <= -lim))
         c.note("int(a/b) == a//b is used only where b | a and |a/b| < 2^53 are known (CPython true division is correctly rounded); otherwise the value is unconstrained")
         return res
+    if isinstance(v, SLog2R):
+        # int(math.log2(x)): truncation. Its own function symbol (it is NOT round(log2 x)), with the facts
+        # that hold of the float computation: 0 at x == 1, >= 0 for x >= 1, monotone, and
+        # 2^t <= x < 2^(t+1) for 0 <= t <= 64 (exact powers of two have exact logarithms)
+        c.trust("int(math.log2(x)) for x >= 1: the t with 2^t <= x < 2^(t+1) (real regime)")
+        t = c.int("trunc_log2")
+        c.assume(SBool(t.t == _TRUNCLOG2(v.x.t)))
+        c.assume(core.implies(v.x == 1, t == 0))
+        c.assume(core.implies(v.x >= 1, t >= 0))
+        for k in range(0, 65):
+            c.assume(core.implies(core.And(v.x >= 1, t == k), core.And(v.x >= (1 << k), v.x < (1 << (k + 1)))))
+        seen = c.ghost.setdefault("trunclog2", [])
+        for (x2, t2) in seen:
+            c.assume(core.implies(v.x <= x2, t <= t2))
+            c.assume(core.implies(x2 <= v.x, t2 <= t))
+        seen.append((v.x, t))
+        return t
     if isinstance(v, SReal):
         # truncation toward zero
         fl = core.Z.ToInt(v.t)
@@ -2062,6 +2079,27 @@ def m_ceil(interp, v):
             cond = (a.t <= t * (1 << k)) if k >= 0 else (a.t * (1 << -k) <= t)
             r = core.Z.If(cond, core.Z.IntVal(k), r)
         return SInt(r)
+    if isinstance(v, SLog2QRounded):
+        # ceil(round(log2(a/t), nd)): the rounding moves the logarithm by at most h = 0.5*10^-nd, so the
+        # result is the least n with a <= t * 2^n * 2^h, up to the tie band; 2^h is bracketed by rationals
+        # lo < 2^h < hi (30 digits) and inside the band either neighbour is allowed (sound: both explored)
+        from decimal import Decimal, getcontext
+        from fractions import Fraction
+        getcontext().prec = 60
+        cexact = Decimal(2) ** (Decimal(5) / Decimal(10) ** (v.nd + 1))
+        lo = Fraction(int(cexact * 10 ** 30), 10 ** 30)
+        hi = lo + Fraction(1, 10 ** 30)
+        a, t = v.a, v.t
+        c.note("math.ceil(round(math.log2(a/t), nd)): least n with a <= t*2^n*2^(0.5*10^-nd) (real regime; either neighbour inside a 1e-30 relative tie band)")
+        res = c.int("ceil_rounded_log2")
+        c.assume(core.And(res >= -41, res <= 81))
+        for k in range(80, -41, -1):
+            p2 = Fraction(1 << k) if k >= 0 else Fraction(1, 1 << -k)
+            below = SBool(a.t * (t * p2 * lo).denominator <= (t * p2 * lo).numerator)      # a <= t*2^k*lo
+            above = SBool(a.t * (t * p2 * hi).denominator > (t * p2 * hi).numerator)       # a >  t*2^k*hi
+            c.assume(core.implies(below, res <= k))
+            c.assume(core.implies(above, res > k))
+        return res
     if isinstance(v, SLog2):
         n = v.n
         res = c.int("ceil_log2")
@@ -2105,12 +2143,23 @@ class SLog2Q(Sym):
         self.a, self.t = a, t
 
 
+class SLog2QRounded(Sym):
+    """round(log2(a / t), nd) with nd >= 1 digits"""
+    __slots__ = ("a", "t", "nd")
+
+    def __init__(self, a, t, nd):
+        self.a, self.t, self.nd = a, t, nd
+
+
 _ROUNDLOG2 = core.Z.Function("round_log2", core.Z.RealSort(), core.Z.IntSort())
+_TRUNCLOG2 = core.Z.Function("trunc_log2", core.Z.RealSort(), core.Z.IntSort())
 
 
 @model(round)
 def m_round(interp, v, nd=None):
     c = ctx()
+    if nd is not None and isinstance(v, SLog2Q) and isinstance(nd, int) and 1 <= nd <= 12:
+        return SLog2QRounded(v.a, v.t, nd)
     if nd is not None:
         raise Unsupported("round with ndigits")
     if isinstance(v, SInt):
@@ -2123,6 +2172,11 @@ def m_round(interp, v, nd=None):
         c.assume(SBool(d.t == _ROUNDLOG2(v.x.t)))
         c.assume(core.implies(v.x == 1, d == 0))
         c.assume(core.implies(v.x >= 1, d >= 0))
+        # meaning, for the delays that matter (0..64): d == round(log2 x)  =>  2^(d-1/2) <= x <= 2^(d+1/2),
+        # stated on squares to stay rational
+        for k in range(0, 65):
+            c.assume(core.implies(core.And(v.x >= 1, d == k),
+                                  core.And(2 * v.x * v.x >= (1 << (2 * k)), v.x * v.x <= (1 << (2 * k + 1)))))
         seen = c.ghost.setdefault("roundlog2", [])
         for (x2, d2) in seen:
             c.assume(core.implies(v.x <= x2, d <= d2))
